@@ -172,7 +172,7 @@ def main():
             if n_rej <= 8:
                 R.broke("correspondence:envelope model %s Go on %s (shape %s, Go: %s)" % (
                     "outcome differs from" if what == "1" else "re-encoding differs from", c["label"], c["shape"], c["expect"]["kind"]),
-                    json.dumps({"hex": c["hex"][:400], "expect": c["expect"], "oracle": c["oracle"][:6]}))
+                    json.dumps({"hex": c["hex"][:400], "expect": c["expect"], "oracle": (c["oracle"] or [])[:6]}))
     # ---- dispatch
     dbyid = {c["id"]: c for c in dcs}
     for c in dcs:
@@ -209,6 +209,26 @@ def main():
             for cid in bad[:4]:
                 R.broke("correspondence:deterministic map-entry order on the wire is not the model's key order (case %d)" % cid, "")
             n_rej += len(bad)
+
+    # ---- the real (unexported) hashProto of both packages on sets built in shuffled orders (go test -overlay)
+    nh = 0
+    for pkg, d, tag in (("core/consensus/qbft", "core_consensus_qbft", "qbft"), ("core/priority", "core_priority", "priority")):
+        rc3, out3, od3 = vp.go_overlay_test(pkg, {"zz_verif_c14_test.go": os.path.join(vp.HARNESS, "overlay", d, "zz_verif_c14_test.go")},
+                                            run="TestVerifC14HashProto", env_extra={"VERIF_N": 400 if R.thorough else 60})
+        res = os.path.join(od3, "c14_hash_%s.json" % tag)
+        if rc3 != 0 or not os.path.exists(res):
+            R.broke("correspondence:overlay test of hashProto in %s failed to run" % pkg, out3[-2000:])
+            continue
+        hr = json.load(open(res))
+        nh += hr["evaluations"]
+        for df in (hr["diffs"] or [])[:1]:
+            R.violation("C14:determinism:hashProto:" + tag, "hashProto of one unsigned data set built in different insertion orders gives different hashes",
+                        {"package": pkg, "keys": df["keys"], "hashes": df["hashes"]})
+        try:
+            os.remove(res)
+        except OSError:
+            pass
+    st["hashproto_evaluations"] = nh
 
     # ---- concrete findings of the harness
     for f in o["findings"]:
